@@ -182,6 +182,27 @@ func init() {
 			if o.hdrErr != nil || o.end != io.EOF || !bytes.Equal(o.released, msg) {
 				fs = append(fs, Failure{Kind: "oracle", Key: "sign-roundtrip-stream", Desc: "streaming verification of a genuine message: " + o.String()[:min(200, len(o.String()))]})
 			}
+			if pe := guard(func() error {
+				txt, e := saltpack.Armor62Seal(out, saltpack.MessageTypeAttachedSignature, "")
+				if e != nil {
+					return e
+				}
+				_, vm3, _, e := saltpack.Dearmor62Verify(saltpack.CheckKnownMajorVersion, txt, ring)
+				if e != nil || !bytes.Equal(vm3, msg) {
+					return fmt.Errorf("Dearmor62Verify: %d bytes, err %v", len(vm3), e)
+				}
+				_, rd, _, e := saltpack.NewDearmor62VerifyStream(saltpack.CheckKnownMajorVersion, strings.NewReader(txt), ring)
+				if e != nil {
+					return e
+				}
+				vm4, e := io.ReadAll(rd)
+				if e != nil || !bytes.Equal(vm4, msg) {
+					return fmt.Errorf("NewDearmor62VerifyStream: %d bytes, err %v", len(vm4), e)
+				}
+				return nil
+			}); pe != nil {
+				fs = append(fs, Failure{Kind: "oracle", Key: "sign-roundtrip-armored", Desc: fmt.Sprintf("armored form of a genuine %d-byte signed message does not verify: %.200s", len(msg), pe.Error())})
+			}
 			_, vm2, e2 := saltpack.Verify(saltpack.CheckKnownMajorVersion, out, other)
 			if errClass(e2) != "ErrNoSenderKey" || vm2 != nil {
 				fs = append(fs, Failure{Kind: "oracle", Key: "verify-unknown-signer", Desc: fmt.Sprintf("unknown signer: err %v, %d bytes", e2, len(vm2))})
